@@ -108,6 +108,28 @@ def cells_of_raw(raw):
     return cells
 
 
+def filter_decisions(T, args, o, bams):
+    """read_should_be_counted called directly on every record (file order); None when it cannot be called"""
+    import pysam
+    fn = getattr(T, 'read_should_be_counted', None)
+    if fn is None:
+        return None
+    bl = None
+    if o.get('blacklist') is not None:
+        bl = {}
+        for c, s, e in o['blacklist']:
+            bl.setdefault(c, []).append((s, e))
+    out = []
+    for path in bams:
+        with pysam.AlignmentFile(path) as f:
+            for read in f:
+                try:
+                    out.append(bool(fn(read, args, bl)))
+                except Exception as e:
+                    out.append(type(e).__name__)
+    return out
+
+
 def handler(p):
     from singlecellmultiomics.bamProcessing import bamToCountTable as T
     import pandas as pd
@@ -165,11 +187,16 @@ def handler(p):
                 pd.DataFrame.from_dict = orig_from_dict
             res = {'cells': cells_of_df(df)}
             res['raw'] = cells_of_raw(captured[0]) if len(captured) == 1 else None
+            res['filter'] = filter_decisions(T, args, o, [paths[i] for i in libs]) if p.get('filter') else None
             out.append(res)
         except BaseException as e:
             if isinstance(e, (KeyboardInterrupt,)):
                 raise
             r = {'error': '%s: %s' % (type(e).__name__, e)}
+            try:
+                r['filter'] = filter_decisions(T, args, o, [paths[i] for i in libs]) if p.get('filter') else None
+            except Exception:
+                r['filter'] = None
             # an exception after the table was accumulated (DataFrame naming) keeps the captured table
             if len(captured) == 1:
                 try:
